@@ -10,10 +10,12 @@
   `unmountCmd_all_run` (the `-all` loop over `d.order.reverse`).
 -/
 import Lc.Lemmas.UmountTrace
+import Lc.Lemmas.UmountState
+import Lc.Props.C12
 
 namespace Lc.Props.C03
 open Lc.SortByAux
-open Lc Lc.Layers Lc.Mountinfo Lc.Trace Lc.UmountTrace
+open Lc Lc.Layers Lc.Mountinfo Lc.Trace Lc.UmountTrace Lc.Kernel Lc.KernelUmount Lc.UmountState
 
 /-! ### what `getMountAndSubmounts` returns -/
 
@@ -355,5 +357,291 @@ example : ParentsFirst d1 := by
   subst this
   exact absurd hb (by decide)
 end Example
+
+/-! ### the END STATE in the kernel model
+
+  `Plain w`: no pretend switch, no injected fault or crash.  `atOrBelow bp q`: `q` is `bp` or
+  starts with `bp ++ "/"` — the region test of `getMountAndSubmounts`.  `kumountSeq t ts`: the
+  kernel model's `kumount` applied to the targets `ts` in order, stopping at the first refusal:
+  (targets done, table reached, error).  `KWF`: ids unique, nobody its own parent, an entry lies
+  at/below its parent's mountpoint, an entry stacked on its parent's mountpoint is listed after
+  it — an invariant of the kernel model (`KTWF_empty`, `kmount_KTWF`, `kumount_KTWF` in
+  Lemmas/KernelUmount). -/
+
+/-- **ViewAgrees**: the layer's `mounts` list was filled by `getMountAndSubmounts` from a
+    cached table `view` that shows, at or below the build root `bp`, the same mountpoints in
+    the same order as the kernel table `t` (stacked mounts as often as they occur).  This is
+    what `getLayers` establishes: `probeAll` sets `l.mounts := getMountAndSubmounts d.mounts
+    (buildPath l)` with `d.mounts = Kernel.probe w.kt`, and `probe_render` (Props/C12) says the
+    probe returns one entry per kernel mount, in table order, with its mountpoint. -/
+def ViewAgrees (l : Layer) (bp : Bytes) (t : KTable) : Prop :=
+  ∃ view : Mounts, l.mounts = getMountAndSubmounts view bp ∧
+    (view.list.filter (fun x => atOrBelow bp x.mountpoint)).map (·.mountpoint) =
+      (t.mnts.filter (fun m => atOrBelow bp m.mp)).map (·.mp)
+
+/-- under `ViewAgrees` the issue order is a permutation of the kernel's mountpoints of the region -/
+theorem ViewAgrees.perm {l : Layer} {bp : Bytes} {t : KTable} (h : ViewAgrees l bp t) :
+    (issueOrder l).Perm ((t.mnts.filter (fun m => atOrBelow bp m.mp)).map (·.mp)) := by
+  obtain ⟨view, hm, hv⟩ := h
+  rw [← hv]
+  unfold issueOrder
+  rw [hm]
+  exact ((List.reverse_perm _).trans (getMountAndSubmounts_complete view bp)).map _
+
+/-- … and leaf-first: no target properly extends an earlier one (`issueOrder_children_first`) -/
+theorem ViewAgrees.leafFirst {l : Layer} {bp : Bytes} {t : KTable} (h : ViewAgrees l bp t) :
+    (issueOrder l).Pairwise (fun earlier later => ¬ Ext earlier later) := by
+  obtain ⟨view, hm, _⟩ := h
+  exact issueOrder_children_first l view bp hm
+
+theorem entries_mountpoints (ts : List Spec.KMount) :
+    (C12.entries ts).map (·.mountpoint) = ts.map (·.mp) := by
+  have h : ∀ (sh : Bool) (m : Spec.KMount), (C12.entryWith sh m).mountpoint = m.mp := by
+    intro sh m
+    unfold C12.entryWith Spec.expectedOf
+    split <;> rfl
+  unfold C12.entries
+  apply List.ext_getElem?
+  intro i
+  simp only [List.getElem?_map, List.getElem?_mapIdx, C12.entryOf]
+  cases ts[i]? with
+  | none => rfl
+  | some m => simp [h]
+
+/-- **what `getLayers` establishes**: if the probe of the kernel table (the mountinfo text the
+    kernel model renders, read by the model of `ProbeMounts`) returns `view` and the layer's
+    list was filled from it, the view agrees with the table.  By `probe_render` (Props/C12);
+    `hwf` is its well-formedness condition on the rendered lines (token fields free of blanks,
+    no carriage return at a line end). -/
+theorem viewAgrees_of_probe (t : KTable) (view : Mounts) (l : Layer) (bp : Bytes)
+    (hwf : ∀ m ∈ t.mnts, (toSpec m).WF) (hp : Kernel.probe t = .ok view)
+    (hm : l.mounts = getMountAndSubmounts view bp) : ViewAgrees l bp t := by
+  refine ⟨view, hm, ?_⟩
+  unfold Kernel.probe Kernel.render at hp
+  rw [C12.probe_render (t.mnts.map toSpec) (by
+    intro m hm
+    obtain ⟨x, hx, rfl⟩ := List.mem_map.mp hm
+    exact hwf x hx)] at hp
+  injection hp with hp
+  subst hp
+  simp only
+  have h1 : ∀ (xs : List MountType), (xs.filter (fun x => atOrBelow bp x.mountpoint)).map (·.mountpoint) =
+      (xs.map (·.mountpoint)).filter (atOrBelow bp) := by
+    intro xs; rw [List.filter_map]; rfl
+  have h2 : (t.mnts.filter (fun m => atOrBelow bp m.mp)).map (·.mp) = (t.mnts.map (·.mp)).filter (atOrBelow bp) := by
+    rw [List.filter_map]; rfl
+  rw [h1, h2, entries_mountpoints, List.map_map]
+  rfl
+/-- **umount_clears_buildroot** (GOAL A1): in a plain world whose kernel table has unique
+    mount ids and agrees with the layer's cached view on the region at/below the build root,
+    if `unmountLayer` returns normally with status `ok` ("unmounted") then the kernel table
+    afterwards is the initial one WITHOUT the entries at or below the build root: no mount is
+    left there, and every other mount is still there, unchanged and in the same order; the
+    file system is untouched.  (Stacked mounts count as often as they occur.) -/
+theorem umount_clears_buildroot (cfg : Config) (d : Defs) (name : Bytes) (w : World) (l : Layer) (d' : Defs)
+    (hl : findLayer d name = some l) (hw : Plain w)
+    (hids : (w.kt.mnts.map (·.id)).Nodup)
+    (hview : ViewAgrees l (buildPath cfg l) w.kt)
+    (hok : ((unmountLayer cfg d name).run.run w).1 = .ok (.ok, d')) :
+    ((unmountLayer cfg d name).run.run w).2.kt.mnts =
+        w.kt.mnts.filter (fun m => !atOrBelow (buildPath cfg l) m.mp) ∧
+    (∀ m ∈ ((unmountLayer cfg d name).run.run w).2.kt.mnts, atOrBelow (buildPath cfg l) m.mp = false) ∧
+    ((unmountLayer cfg d name).run.run w).2.fs = w.fs := by
+  have hidle : isBusy l false = false ∧ l.mounts.length ≠ 0 := by
+    rcases unmountLayer_run_cases cfg d name w l hl with ⟨_, h⟩ | ⟨_, _, h⟩ | ⟨h1, h2, _⟩
+    · rw [h] at hok; cases hok
+    · rw [h] at hok; cases hok
+    · exact ⟨h1, h2⟩
+  obtain ⟨hkt, hfs, _, hst, _⟩ := unmountLayer_plain cfg d name w l hl hw hidle.1 hidle.2
+  have hnone := (hst .ok d' hok).2
+  have hcl := kumountSeq_cleared w.kt (issueOrder l) (atOrBelow (buildPath cfg l)) hids hview.perm hnone
+  have heq : ((unmountLayer cfg d name).run.run w).2.kt.mnts =
+      w.kt.mnts.filter (fun m => !atOrBelow (buildPath cfg l) m.mp) := by rw [hkt, hcl]
+  refine ⟨heq, ?_, hfs⟩
+  intro m hm
+  rw [heq] at hm
+  simpa using (List.mem_filter.mp hm).2
+
+/-- the same for the command `umount <name>`: a normal return means status `ok` -/
+theorem umountCmd_clears_buildroot (cfg : Config) (d : Defs) (name : Bytes) (w : World) (l : Layer) (d' : Defs)
+    (hn : name ≠ []) (hl : findLayer d name = some l) (hw : Plain w)
+    (hids : (w.kt.mnts.map (·.id)).Nodup)
+    (hview : ViewAgrees l (buildPath cfg l) w.kt)
+    (hok : ((unmountCmd cfg d name false).run.run w).1 = .ok d') :
+    ((unmountCmd cfg d name false).run.run w).2.kt.mnts =
+        w.kt.mnts.filter (fun m => !atOrBelow (buildPath cfg l) m.mp) ∧
+    (∀ m ∈ ((unmountCmd cfg d name false).run.run w).2.kt.mnts, atOrBelow (buildPath cfg l) m.mp = false) ∧
+    ((unmountCmd cfg d name false).run.run w).2.fs = w.fs := by
+  rcases unmountCmd_one cfg d name w hn with ⟨_, e, he⟩ | ⟨hw2, hN, _, _⟩
+  · rw [he] at hok; cases hok
+  · rw [hw2]
+    exact umount_clears_buildroot cfg d name w l d' hl hw hids hview (hN d' hok)
+
+/-- **umount_no_call_refused** (GOAL A1, the part "kumount succeeds on a leaf"): plain world,
+    well-formed kernel table (`KWF`), view agreeing with the table on the region, build root
+    not "/", idle layer.  Then the kernel refuses NONE of the unmount calls (no EBUSY because of
+    `umount_leaf_order`: when a target's turn comes nothing is mounted beneath it any more; no
+    EINVAL because every target is a current mountpoint), so on EVERY exit of `unmountLayer`
+    the table is the initial one without the region; and when the layer had mounts a normal
+    return has status `ok`.  (The only error exit left is a panic of the re-probe after the
+    loop, which does not touch the world.) -/
+theorem umount_no_call_refused (cfg : Config) (d : Defs) (name : Bytes) (w : World) (l : Layer)
+    (hl : findLayer d name = some l) (hw : Plain w) (hwf : KWF w.kt.mnts)
+    (hview : ViewAgrees l (buildPath cfg l) w.kt) (hbp : buildPath cfg l ≠ b!"/")
+    (hb : isBusy l false = false) :
+    (kumountSeq w.kt (issueOrder l)).2.2 = none ∧
+    ((unmountLayer cfg d name).run.run w).2.kt.mnts =
+        w.kt.mnts.filter (fun m => !atOrBelow (buildPath cfg l) m.mp) ∧
+    (l.mounts.length ≠ 0 → ∀ st d', ((unmountLayer cfg d name).run.run w).1 = .ok (st, d') → st = .ok) := by
+  have hnone := kumountSeq_succeeds (buildPath cfg l) hbp (issueOrder l) w.kt hwf hview.perm hview.leafFirst
+  have hcl := kumountSeq_cleared w.kt (issueOrder l) (atOrBelow (buildPath cfg l)) hwf.ids hview.perm hnone
+  refine ⟨hnone, ?_, ?_⟩
+  · by_cases hm : l.mounts.length = 0
+    · -- nothing listed: nothing mounted in the region, nothing done
+      rcases unmountLayer_run_cases cfg d name w l hl with ⟨h1, _⟩ | ⟨_, _, h⟩ | ⟨_, h2, _⟩
+      · rw [hb] at h1; cases h1
+      · rw [h]
+        have hnil : issueOrder l = [] := by
+          unfold issueOrder
+          rw [List.length_eq_zero_iff.mp hm]; rfl
+        rw [hnil] at hcl
+        exact hcl
+      · exact absurd hm h2
+    · obtain ⟨hkt, _, _, _, _⟩ := unmountLayer_plain cfg d name w l hl hw hb hm
+      rw [hkt, hcl]
+  · intro hm st d' hr
+    exact ((unmountLayer_plain cfg d name w l hl hw hb hm).2.2.2.1 st d' hr).1
+
+/-- **umount_failure_keeps_prefix** (GOAL A2): plain world, unique mount ids, idle layer with
+    a non-empty `mounts` list whose entries lie at/below the build root (true of every list
+    `getMountAndSubmounts` returns: `getMountAndSubmounts_inside`) — NO agreement between view
+    and kernel table is assumed.  If the kernel refuses one of the calls (say a mount the view
+    did not know about keeps a target busy, or a listed mount is already gone), then
+    * the command reports failure, with the kernel's errno — it does not report success;
+    * the calls before it (`done`) succeeded, the refused target is the next of the issue order;
+    * the table reached is a sublist of the initial one (nothing changed, added or reordered),
+      its mountpoints together with `done` are exactly the initial mountpoints — the initial
+      table minus one (the topmost) entry per successfully unmounted target —, and every mount
+      outside the build root is still there;
+    * the refusal is EINVAL with nothing mounted at the target, or EBUSY with a mount whose
+      parent is the topmost mount at the target;  the file system is untouched. -/
+theorem umount_failure_keeps_prefix (cfg : Config) (d : Defs) (name : Bytes) (w : World) (l : Layer)
+    (hl : findLayer d name = some l) (hw : Plain w) (hids : (w.kt.mnts.map (·.id)).Nodup)
+    (hb : isBusy l false = false) (hm : l.mounts.length ≠ 0)
+    (hin : ∀ x ∈ l.mounts, atOrBelow (buildPath cfg l) x.mountpoint = true)
+    (e : KErr) (hfail : (kumountSeq w.kt (issueOrder l)).2.2 = some e) :
+    ((unmountLayer cfg d name).run.run w).1 = .error (.err ("sys:" ++ e.str)) ∧
+    (∃ p rest, issueOrder l = (kumountSeq w.kt (issueOrder l)).1 ++ p :: rest ∧
+      kumount ((unmountLayer cfg d name).run.run w).2.kt p = .error e ∧
+      ((e = .einval ∧ ∀ x ∈ ((unmountLayer cfg d name).run.run w).2.kt.mnts, x.mp ≠ p) ∨
+       (e = .ebusy ∧ ∃ m, topmostAt ((unmountLayer cfg d name).run.run w).2.kt.mnts p = some m ∧
+          ∃ c ∈ ((unmountLayer cfg d name).run.run w).2.kt.mnts, c.parent = m.id))) ∧
+    ((unmountLayer cfg d name).run.run w).2.kt.mnts.Sublist w.kt.mnts ∧
+    (w.kt.mnts.map (·.mp)).Perm ((kumountSeq w.kt (issueOrder l)).1 ++
+      ((unmountLayer cfg d name).run.run w).2.kt.mnts.map (·.mp)) ∧
+    ((unmountLayer cfg d name).run.run w).2.kt.mnts.filter (fun m => !atOrBelow (buildPath cfg l) m.mp) =
+      w.kt.mnts.filter (fun m => !atOrBelow (buildPath cfg l) m.mp) ∧
+    ((unmountLayer cfg d name).run.run w).2.fs = w.fs := by
+  obtain ⟨hkt, hfs, _, _, herr⟩ := unmountLayer_plain cfg d name w l hl hw hb hm
+  obtain ⟨rest, hpre, _, hstop⟩ := kumountSeq_prefix w.kt (issueOrder l)
+  obtain ⟨p, rest', hrest, hkp⟩ := hstop e hfail
+  obtain ⟨hsub, hperm, _, _, hfil⟩ := kumountSeq_spec w.kt (issueOrder l) hids
+  rw [hkt]
+  refine ⟨herr e hfail, ⟨p, rest', by rw [← hrest]; exact hpre, hkp, kumount_error hkp⟩, hsub, hperm, ?_, hfs⟩
+  apply hfil
+  intro q hq
+  have hq' : q ∈ issueOrder l := by rw [hpre]; exact List.mem_append_left _ hq
+  unfold issueOrder at hq'
+  obtain ⟨x, hx, rfl⟩ := List.mem_map.mp hq'
+  exact hin x (List.mem_reverse.mp hx)
+
+/-- the command `umount <name>` passes that failure on -/
+theorem umountCmd_failure_reported (cfg : Config) (d : Defs) (name : Bytes) (w : World) (l : Layer)
+    (hn : name ≠ []) (hl : findLayer d name = some l) (hw : Plain w) (hb : isBusy l false = false)
+    (hm : l.mounts.length ≠ 0) (e : KErr) (hfail : (kumountSeq w.kt (issueOrder l)).2.2 = some e) :
+    ∃ f, ((unmountCmd cfg d name false).run.run w).1 = .error f ∧
+      (((unmountCmd cfg d name false).run.run w).2.kt = (kumountSeq w.kt (issueOrder l)).2.1 ∨
+       ((unmountCmd cfg d name false).run.run w).2 = w) := by
+  obtain ⟨hkt, _, _, _, herr⟩ := unmountLayer_plain cfg d name w l hl hw hb hm
+  rcases unmountCmd_one cfg d name w hn with ⟨h1, f, hf⟩ | ⟨hw2, _, hE, _⟩
+  · exact ⟨f, hf, .inr h1⟩
+  · exact ⟨_, hE _ (herr e hfail), .inl (by rw [hw2, hkt])⟩
+
+/-! ### non-vacuity of the end-state theorems -/
+
+namespace Example2
+/-- kernel table: the host's root and /home, a mount on a sibling of the layer whose path
+    starts with the same bytes (`/b/L/xy`), and below the build root of layer `x`: /proc, /dev
+    and TWO stacked mounts on /dev/shm (the second has the first as its parent) -/
+def kt2 : KTable :=
+  { mnts := [ { id := 1, parent := 0, dev := b!"8:1", root := b!"/", mp := b!"/", fstype := b!"ext4", source := b!"/dev/sda1" },
+              { id := 25, parent := 1, dev := b!"8:2", root := b!"/", mp := b!"/home", fstype := b!"ext4", source := b!"/dev/sda2" },
+              { id := 30, parent := 1, dev := b!"0:4", root := b!"/", mp := b!"/b/L/x/build/proc", fstype := b!"proc", source := b!"proc" },
+              { id := 31, parent := 1, dev := b!"0:5", root := b!"/", mp := b!"/b/L/x/build/dev", fstype := b!"devtmpfs", source := b!"udev" },
+              { id := 32, parent := 31, dev := b!"0:20", root := b!"/", mp := b!"/b/L/x/build/dev/shm", fstype := b!"tmpfs", source := b!"shm" },
+              { id := 33, parent := 32, dev := b!"0:21", root := b!"/", mp := b!"/b/L/x/build/dev/shm", fstype := b!"tmpfs", source := b!"shm2" },
+              { id := 34, parent := 1, dev := b!"0:22", root := b!"/", mp := b!"/b/L/xy", fstype := b!"tmpfs", source := b!"x" } ],
+    nextId := 35 }
+/-- what the probe makes of it (one entry per kernel mount, table order) -/
+def view2 : Mounts :=
+  { list := [ ⟨[], b!"/", [], [], b!"ext4", b!"rw", false, b!"8:1", [47]⟩,
+              ⟨[], b!"/home", [], [], b!"ext4", b!"rw", false, b!"8:2", [47]⟩,
+              ⟨[], b!"/b/L/x/build/proc", [], [], b!"proc", b!"rw", false, b!"0:4", [47]⟩,
+              ⟨[], b!"/b/L/x/build/dev", [], [], b!"devtmpfs", b!"rw", false, b!"0:5", [47]⟩,
+              ⟨[], b!"/b/L/x/build/dev/shm", [], [], b!"tmpfs", b!"rw", true, b!"0:20", [47]⟩,
+              ⟨[], b!"/b/L/x/build/dev/shm", [], [], b!"tmpfs", b!"rw", true, b!"0:21", [47]⟩,
+              ⟨[], b!"/b/L/xy", [], [], b!"tmpfs", b!"rw", false, b!"0:22", [47]⟩ ] }
+def l2 : Layer := { name := b!"x", layerPath := b!"/b/L/x", state := S_mounted,
+                    mounts := getMountAndSubmounts view2 b!"/b/L/x/build" }
+def d2 : Defs := { layers := [l2], order := [b!"x"], mounts := view2 }
+def w2 : World := { kt := kt2 }
+
+-- the hypotheses of `umount_clears_buildroot` / `umount_no_call_refused` hold here
+example : findLayer d2 b!"x" = some l2 ∧ isBusy l2 false = false ∧ l2.mounts.length = 4 := ⟨rfl, rfl, rfl⟩
+example : Plain w2 := ⟨rfl, rfl, rfl⟩
+example : buildPath Example.cfg0 l2 = b!"/b/L/x/build" := by decide
+example : ViewAgrees l2 (buildPath Example.cfg0 l2) w2.kt := ⟨view2, by rfl, by decide⟩
+example : KWF w2.kt.mnts := ⟨by decide, by decide, by decide, by decide⟩
+/-- deepest first; the two stacked mounts are two calls on the same target -/
+example : issueOrder l2 = [b!"/b/L/x/build/proc", b!"/b/L/x/build/dev/shm", b!"/b/L/x/build/dev/shm",
+    b!"/b/L/x/build/dev"] := by rfl
+/-- the kernel model evaluated on that order: every call succeeds, … -/
+example : (kumountSeq w2.kt (issueOrder l2)).2.2 = none ∧ (kumountSeq w2.kt (issueOrder l2)).1 = issueOrder l2 := by
+  decide
+/-- … and the conclusion is not trivial: four of the seven mounts are gone, the host's mounts
+    and the sibling `/b/L/xy` are left, in their order -/
+example : (w2.kt.mnts.filter (fun m => !atOrBelow (buildPath Example.cfg0 l2) m.mp)).map (·.mp) =
+    [b!"/", b!"/home", b!"/b/L/xy"] := by decide
+/-- the theorem applied: on every exit of the model's `unmountLayer` (its re-probe goes through
+    `toString`, which `decide` cannot evaluate) the table holds exactly these three -/
+example : ((unmountLayer Example.cfg0 d2 b!"x").run.run w2).2.kt.mnts.map (·.mp) =
+    [b!"/", b!"/home", b!"/b/L/xy"] := by
+  rw [(umount_no_call_refused Example.cfg0 d2 b!"x" w2 l2 rfl ⟨rfl, rfl, rfl⟩
+    ⟨by decide, by decide, by decide, by decide⟩ ⟨view2, by rfl, by decide⟩ (by decide) rfl).2.1]
+  decide
+
+/-- GOAL A2: the administrator mounted something on `/b/L/x/build/dev/pts` after the probe: the
+    view (still `view2`) does not know it -/
+def pts : KMnt :=
+  { id := 35, parent := 31, dev := b!"0:23", root := b!"/", mp := b!"/b/L/x/build/dev/pts", fstype := b!"devpts", source := b!"devpts" }
+def kt3 : KTable := { kt2 with mnts := kt2.mnts ++ [pts], nextId := 36 }
+def w3 : World := { kt := kt3 }
+example : (w3.kt.mnts.map (·.id)).Nodup ∧ (∀ x ∈ l2.mounts, atOrBelow (buildPath Example.cfg0 l2) x.mountpoint = true) := by
+  decide
+/-- /proc and both /dev/shm go, then /dev is refused with EBUSY -/
+example : kumountSeq w3.kt (issueOrder l2) =
+    ([b!"/b/L/x/build/proc", b!"/b/L/x/build/dev/shm", b!"/b/L/x/build/dev/shm"],
+     { kt3 with mnts := kt3.mnts.filter (fun m => m.id != 30 && m.id != 32 && m.id != 33) }, some .ebusy) := by
+  decide
+/-- the theorem applied: failure is reported, /dev and the unknown /dev/pts are still mounted,
+    the host's mounts untouched -/
+example : ((unmountLayer Example.cfg0 d2 b!"x").run.run w3).1 = .error (.err "sys:EBUSY") ∧
+    ((unmountLayer Example.cfg0 d2 b!"x").run.run w3).2.kt.mnts.filter
+        (fun m => !atOrBelow (buildPath Example.cfg0 l2) m.mp) =
+      w3.kt.mnts.filter (fun m => !atOrBelow (buildPath Example.cfg0 l2) m.mp) := by
+  have h := umount_failure_keeps_prefix Example.cfg0 d2 b!"x" w3 l2 rfl ⟨rfl, rfl, rfl⟩ (by decide) rfl
+    (by decide) (by decide) .ebusy (by decide)
+  exact ⟨h.1, h.2.2.2.2.1⟩
+end Example2
 
 end Lc.Props.C03
